@@ -661,7 +661,13 @@ func (in *Interp) equals(t types.Type, x, y Value) Value {
 		return x == y.(*chanVal)
 	case unsafePtr:
 		yp, ok := y.(unsafePtr)
-		return ok && x.v == yp.v
+		if !ok {
+			return false
+		}
+		if nilUnsafe(x) || nilUnsafe(yp) {
+			return nilUnsafe(x) && nilUnsafe(yp)
+		}
+		return x.v == yp.v
 	case Struct:
 		ys := y.(Struct)
 		var st *types.Struct
@@ -1327,4 +1333,15 @@ func (in *Interp) decodeRune(x Value, pos int) (Value, int) {
 		return val(or(or(or(shl(and32(b0, 0x07), 18), shl(and32(bt(1), 0x3F), 12)), shl(and32(bt(2), 0x3F), 6)), and32(bt(3), 0x3F))), 4
 	}
 	return rerr, 1
+}
+
+// nilUnsafe: an unsafe.Pointer that holds nothing, or a nil pointer of any type.
+func nilUnsafe(u unsafePtr) bool {
+	switch v := u.v.(type) {
+	case nil:
+		return true
+	case *Value:
+		return v == nil
+	}
+	return false
 }
